@@ -263,6 +263,12 @@ def _custom_rsv(mem, p, rsv, rlen, unit, end, nulls, phys_end):
             a = phys_end
             while tlv.encode_addr(a) is None:
                 a += 1
+        elif rsv == 'sector':
+            # straddling the border between the first and the second 1 KiB
+            # sector of a Type 2 Tag (byte 1024)
+            a = _enc_down(1023)          # 975: the last encodable address
+            rlen = 1024 - a + rlen       # ... so the range ends rlen behind
+            assert o + 4 < a < 1024 < a + rlen <= end, (a, rlen, end)
         else:
             raise ValueError(rsv)
     assert tlv.encode_addr(a) is not None, (rsv, a)
@@ -390,6 +396,9 @@ def t2_cases(tier, sizes=None, full_align=True):
                     out.append(t2_case(D, product, nulls, 'afterL', 1))
             for fill in (2, 3, 6):
                 out.append(t2_case(D, product, fill=fill))
+            if D >= 1016:       # reserved range across the sector border
+                out.append(t2_case(D, product, 0, 'sector', 8))
+                out.append(t2_case(D, product, 2, 'sector', 3))
             if D == 504:        # avail around the 1-byte / 3-byte length switch
                 for fill in range(254, 261):
                     out.append(t2_case(D, product, fill=fill))
